@@ -190,6 +190,8 @@ pub fn check(hdr: &str, lines: &[String], trace: &[(String, Vec<String>)], mon: 
     let mut czero: u8 = 0x7F;
     let mut unsolicited = false;
     let mut anymaster = false;
+    let mut sol_size: usize = 2048;
+    let mut longest_os: usize = 0;
     let mut selfaddr = false;
     let mut ledger: Vec<Ev> = Vec::new();
     let mut txs: Vec<TxRec> = Vec::new();
@@ -251,6 +253,9 @@ pub fn check(hdr: &str, lines: &[String], trace: &[(String, Vec<String>)], mon: 
                     if let Some(v) = w.strip_prefix("unsolicited=") {
                         unsolicited = v == "1";
                     }
+                    if let Some(v) = w.strip_prefix("sol=") {
+                        sol_size = v.parse().unwrap();
+                    }
                     if let Some(v) = w.strip_prefix("anymaster=") {
                         anymaster = v == "1";
                     }
@@ -297,6 +302,7 @@ pub fn check(hdr: &str, lines: &[String], trace: &[(String, Vec<String>)], mon: 
                     let flags: u8 = p[3].parse().unwrap();
                     let time: u64 = if p[4] == "-" { 0 } else { p[4].parse().unwrap() };
                     let val = if ty == Ty::Os {
+                        longest_os = longest_os.max(unhex(p[2]).len());
                         Val { v: 0, flags: 0, time: 0, octets: unhex(p[2]) }
                     } else {
                         Val { v: norm_value(ty, p[2].parse().unwrap()), flags, time, octets: vec![] }
@@ -569,6 +575,13 @@ pub fn check(hdr: &str, lines: &[String], trace: &[(String, Vec<String>)], mon: 
                 continue;
             }
             let uns = b[1] == 0x82;
+            // C11 (orderly series) / C01 (never stalls): a non-final solicited fragment that carries no object makes
+            // no progress; the series it belongs to can never finish.  D15: an octet string (static g110 or event
+            // g111) that can never fit the transmit buffer is retried fragment after fragment
+            if !uns && b[1] == 0x81 && b.len() == 4 && b[0] & 0x40 == 0 {
+                let d15 = longest_os + 7 > sol_size.saturating_sub(4);
+                fail(mon, hdr, "series_makes_progress", if d15 { "D15" } else { "" }, &format!("op {k}: non-final solicited fragment without objects: {}", hex(&b)));
+            }
             let objs = match decode(&b[4..]) {
                 Some(x) => x,
                 None => continue,
